@@ -129,6 +129,9 @@ def extract(text):
         if in_import and k == "punct" and t == ";":
             in_import = False
     obs["idents_used"] = sorted(used)
+    # the JSON keys the generated reviver tests (`key === "..."`): a binding of a key to a member's custom translation
+    obs["reviver_keys"] = [unquote(toks[i + 3][1]) for i in range(len(toks) - 3)
+                           if toks[i][0] == "id" and toks[i][1] == "key" and toks[i + 1][1] == "==" and toks[i + 2][1] == "=" and toks[i + 3][0] == "str"]
     while not c.eof():
         t = c.peek()
         if c.at("import"):
